@@ -31,7 +31,7 @@ static void scenario() {
                 fr(owned[0]); al(1); if (nown > 1) fr(owned[1]); al(1); if (align) for (int j = 2; j < nown; j++) fr(owned[j]);
             } });
     open_window_and_join(ids);
-    vf_liveness(0);
+    /* liveness stays on: the sequential phase that follows must terminate too */
     h.check_all("after the window");
     // everything that is still live can be freed by the main thread (a third thread) and reused
     std::vector<unsigned char*> rest; for (auto& kv : h.live) rest.push_back(kv.first); for (auto p : rest) fr(p);
